@@ -21,14 +21,14 @@ import (
 )
 
 var (
-	flagReplay  = flag.String("verif.replay", "", "run the property's Run on this saved case file instead of generating")
-	flagOut     = flag.String("verif.out", "", "write the shard's evidence JSON here")
-	flagTier    = flag.String("verif.tier", "quick", "quick or thorough (sizes of generated cases)")
-	flagHang    = flag.Int("verif.hang", 120, "seconds a single case may run before the watchdog declares a hang")
-	flagSamples = flag.Int("verif.samples", 3, "non-trivial sample cases to keep per shard")
-	flagShard   = flag.String("verif.shard", "0/1", "i/n: this process is shard i of n (deterministic enumerations are dealt round-robin)")
-	flagNoExh   = flag.Bool("verif.noexh", false, "skip deterministic enumerations (development only)")
-	flagKnown   = flag.String("verif.known", "", "path of known_findings.json (open findings are excluded by construction and counted)")
+	flagReplay   = flag.String("verif.replay", "", "run the property's Run on this saved case file instead of generating")
+	flagOut      = flag.String("verif.out", "", "write the shard's evidence JSON here")
+	flagTier     = flag.String("verif.tier", "quick", "quick or thorough (sizes of generated cases)")
+	flagHang     = flag.Int("verif.hang", 120, "seconds a single case may run before the watchdog declares a hang")
+	flagSamples  = flag.Int("verif.samples", 3, "non-trivial sample cases to keep per shard")
+	flagShard    = flag.String("verif.shard", "0/1", "i/n: this process is shard i of n (deterministic enumerations are dealt round-robin)")
+	flagNoExh    = flag.Bool("verif.noexh", false, "skip deterministic enumerations (development only)")
+	flagKnown    = flag.String("verif.known", "", "path of known_findings.json (open findings are excluded by construction and counted)")
 	flagInflight = flag.String("verif.inflight", "", "write the JSON of the case in flight to this file before running it (race builds: the process halts on the first report)")
 )
 
@@ -102,22 +102,22 @@ func (r *Result) failf(format string, a ...any) *Result {
 }
 
 type shardOut struct {
-	Property    string           `json:"property"`
-	Mode        string           `json:"mode"` // generate | replay
-	Tier        string           `json:"tier"`
-	Evaluations int              `json:"evaluations"`
-	BulkEvals   int              `json:"bulk_evaluations"`  // cases of deterministic enumerations (distinct by construction)
-	BulkNT      int              `json:"bulk_nontrivial"`   // of those, non-trivial
-	NonTrivial  []string         `json:"nontrivial_hashes"`
-	Classes     map[string]int   `json:"classes"`
+	Property    string            `json:"property"`
+	Mode        string            `json:"mode"` // generate | replay
+	Tier        string            `json:"tier"`
+	Evaluations int               `json:"evaluations"`
+	BulkEvals   int               `json:"bulk_evaluations"` // cases of deterministic enumerations (distinct by construction)
+	BulkNT      int               `json:"bulk_nontrivial"`  // of those, non-trivial
+	NonTrivial  []string          `json:"nontrivial_hashes"`
+	Classes     map[string]int    `json:"classes"`
 	Samples     []json.RawMessage `json:"samples"`
-	Known       map[string]int   `json:"known"`
-	Failed      bool             `json:"failed"`
-	FailMsg     string           `json:"fail_msg,omitempty"`
-	FailCase    json.RawMessage  `json:"fail_case,omitempty"`
-	Hang        bool             `json:"hang,omitempty"`
-	WallS       float64          `json:"wall_s"`
-	Extra       map[string]any   `json:"extra,omitempty"`
+	Known       map[string]int    `json:"known"`
+	Failed      bool              `json:"failed"`
+	FailMsg     string            `json:"fail_msg,omitempty"`
+	FailCase    json.RawMessage   `json:"fail_case,omitempty"`
+	Hang        bool              `json:"hang,omitempty"`
+	WallS       float64           `json:"wall_s"`
+	Extra       map[string]any    `json:"extra,omitempty"`
 }
 
 type recorder struct {
